@@ -194,6 +194,7 @@ package swamp
 // - the status reported is New / Modified / Same accordingly.
 //@ func (*swamp).SaveFunction(s, t, guardID) (status)
 //@   property C07 C30 C19 C06 C09
+//@   before swamp.sendEventToHydra [C19:event_is_sent_while_the_records_guard_is_still_held] calls("Treasure.ReleaseTreasureGuard") == old(calls("Treasure.ReleaseTreasureGuard"))
 //@   before Treasure.ReleaseTreasureGuard [C09:in_flight_tracker_dropped_before_the_guard_is_released] isnil(lastret("Beacon.Get")) ==> calls("Map.Delete") == old(calls("Map.Delete")) + 1
 //@   before Beacon.Add [C06:pending_tombstone_dropped_before_a_recreated_record_is_queued] arg0 == s.treasuresWaitingForWriter && isnil(lastret("Beacon.Get")) ==> calls("Beacon.Delete") == old(calls("Beacon.Delete")) + 1 && calledwith("Beacon.Delete", 0, s.treasuresWaitingForWriter)
 //@   requires[record] t != nil
@@ -238,6 +239,8 @@ package swamp
 //@   modifies *
 //@   before Treasure.BodySetForDeletion [event_snapshot_taken_before_the_record_changes] calls("Treasure.Clone") == old(calls("Treasure.Clone")) + 1
 //@   before Beacon.Delete [event_snapshot_taken_before_the_record_is_unindexed] calls("Treasure.Clone") == old(calls("Treasure.Clone")) + 1
+//@   before swamp.sendDeletedEventToClient [deleted_event_is_sent_while_the_records_guard_is_still_held] calls("Treasure.StartTreasureGuard") == old(calls("Treasure.StartTreasureGuard")) + 1 && calls("Treasure.ReleaseTreasureGuard") == old(calls("Treasure.ReleaseTreasureGuard"))
+//@   before swamp.sendDeletedEventToClient [deleted_event_is_sent_after_the_record_left_the_key_index] calls("Beacon.Delete") > old(calls("Beacon.Delete"))
 //@   before swamp.sendDeletedEventToClient [event_carries_the_snapshot] calls("Treasure.Clone") == old(calls("Treasure.Clone")) + 1 && arg1 == lastret("Treasure.Clone")
 //@   before Treasure.Clone [snapshot_taken_under_the_guard] calls("Treasure.StartTreasureGuard") == old(calls("Treasure.StartTreasureGuard")) + 1 && arg1 == lastret("Treasure.StartTreasureGuard") && calls("Treasure.ReleaseTreasureGuard") == old(calls("Treasure.ReleaseTreasureGuard"))
 //@   ensures[one_deleted_event_per_removed_record] !isnil(deleted) ==> calls("swamp.sendDeletedEventToClient") == old(calls("swamp.sendDeletedEventToClient")) + 1
